@@ -102,6 +102,9 @@ class Scheduler(object):
         self.sync_points = sync_points
         self.io_points = io_points
         self.record_info = record_info
+        # exploration window: while False every choice takes the default and is not recorded (the driver sets it
+        # around the part of a scenario whose schedules are to be enumerated; set-up and tear-down run one way)
+        self.armed = True
         self.cost = 0              # preemptions so far
         self.last_local = None     # last non-free thread that ran
         self.clock_log = []        # (step, old, new) clock advances
@@ -215,7 +218,7 @@ class Scheduler(object):
 
     def choose(self, n, kind="env", info=None):
         """environment choice among n alternatives (no preemption cost). Called by a logical thread."""
-        if n <= 1:
+        if n <= 1 or not self.armed:
             return 0
         me = _tls.lthread
         me.in_sched = True
@@ -360,7 +363,7 @@ class Scheduler(object):
         if cur_enabled:
             enabled.remove(ref)
             enabled.insert(0, ref)
-        if len(enabled) > 1:
+        if len(enabled) > 1 and self.armed:
             costs = tuple((1 if (cur_enabled and i != 0 and not t.free) else 0) for i, t in enumerate(enabled))
             c = self._take_choice(kind, len(enabled), tuple(t.id for t in enabled), cur_enabled, info, costs)
             if c is None:
